@@ -1,6 +1,7 @@
 package main
 
 import (
+	"sync/atomic"
 	"syscall"
 	"bufio"
 	"bytes"
@@ -484,6 +485,10 @@ func c16Relay(c *Ctx) {
 				c.Violation("relay/status", sfmt("fault %s: client saw status %d, backend sent %d before failing", p.Fault, status, p.Status), p)
 				return
 			}
+			if len(cr.body) < len(back.body) && cr.rerr == nil {
+				c.Violation("relay/truncation-hidden", sfmt("fault %s: the backend died after %d of %d body bytes (chunked=%v); the client received %d bytes and was told the response was complete (no read error)", p.Fault, p.CutAt, len(back.body), p.Chunked, len(cr.body)), p)
+				return
+			}
 			if !bytes.HasPrefix(back.body, cr.body) {
 				c.Violation("relay/extra-bytes", sfmt("fault %s: the %d body bytes the client received are not a prefix of what the backend sent (first difference at %d)", p.Fault, len(cr.body), firstDiff(cr.body, back.body[:min(len(back.body), len(cr.body))])), p)
 				return
@@ -579,6 +584,61 @@ func boundNotListening() (string, func(), error) {
 // c16ConcRelay: several large responses are relayed at the same time through ONE forwarder; every client must get
 // exactly its own backend's bytes (the statement says "unchanged, for any size and chunking" - also under load).
 func c16ConcRelay(c *Ctx) {
+	// first thing in this fresh process: a burst of simultaneous failures of every class through one forwarder
+	// (a proxy restarted while its backends are down); each must get its gateway status and the process must survive
+	if c.ReplayCase < 0 && c.Shard == 0 {
+		fwd := forward.New(false)
+		fwd.Transport = &http.Transport{ResponseHeaderTimeout: 100 * time.Millisecond, DisableKeepAlives: true}
+		refusedAddr, release, err := boundNotListening()
+		if err == nil {
+			defer release()
+			stall, _ := listenRetry("tcp4", "127.0.0.1:0")
+			go func() {
+				for {
+					conn, err := stall.Accept()
+					if err != nil {
+						return
+					}
+					go func() { time.Sleep(2 * time.Second); conn.Close() }()
+				}
+			}()
+			var wg sync.WaitGroup
+			start := make(chan struct{})
+			var wrong atomic.Int64
+			for g := 0; g < 48; g++ {
+				wg.Add(1)
+				go func(g int) {
+					defer wg.Done()
+					target, want := refusedAddr, 502
+					ctx, cancel := context.WithCancel(context.Background())
+					defer cancel()
+					switch g % 3 {
+					case 1:
+						target, want = stall.Addr().String(), 504
+					case 2:
+						target, want = stall.Addr().String(), 499
+						cancel()
+					}
+					req := httptest.NewRequest("GET", "http://front.test/x", nil).WithContext(ctx)
+					req.URL = &url.URL{Scheme: "http", Host: target, Path: "/x"}
+					req.RequestURI = "/x"
+					rec := httptest.NewRecorder()
+					<-start
+					fwd.ServeHTTP(rec, req)
+					if rec.Code != want {
+						wrong.Add(1)
+					}
+				}(g)
+			}
+			close(start)
+			wg.Wait()
+			stall.Close()
+			c.Count("concurrent_first_failures", 48)
+			if wrong.Load() > 0 {
+				c.Violation("mapping/concurrent-failures", sfmt("%d of 48 simultaneous failing requests (refused / header timeout / cancelled) got a status other than 502 / 504 / 499", wrong.Load()), nil)
+			}
+		}
+	}
 	c.Cases("concrelay", c.N(6, 120), func(i int, r *rand.Rand) {
 		const G = 8
 		sizes := make([]int, G)
